@@ -139,9 +139,12 @@ func runC19(c *core.Ctx) {
 		cv.val, cv.isFlag, cv.hasClear = cvMake(cv.variant, &cv.log)
 		switch cv.envState {
 		case 1:
-			cv.envVal = "e1"
+			// the environment content reaches Set untouched (apart from the trimming of list elements), whatever it
+			// looks like - also spellings that other libraries read as booleans
+			words := []string{"e1", "yes", "off", "On", "no", "true", "false", "0", "Y"}
+			cv.envVal = words[r.Intn(len(words))]
 			if cv.hasClear {
-				cv.envVal = "e1, e2 ,e3"
+				cv.envVal = words[r.Intn(len(words))] + ", " + words[r.Intn(len(words))] + " ," + words[r.Intn(len(words))]
 			}
 		case 2:
 			cv.envVal = "BAD"
